@@ -25,18 +25,23 @@
               still an empty account, so anything a dropped box left behind about y shows in the block's gasUsed
      modsig   r1 hands its account to another signer (ModifySigners): valid iff r1 is funded and still its own signer;
               afterwards spend / votep / overspend, signed by r1, are no longer authorised
+     big      a cheap transfer whose gas LIMIT is the whole block gas limit but for 20000: it fits only while nothing was
+              packaged before it in the block (the miner skips it otherwise: "block is full")
+     boxmany  a box of 12 transfers to 12 otherwise untouched accounts (many change logs on many accounts in one block)
    Before every block the miner under test (node A only) tries ALL transactions it has not been offered yet on a throwaway
    block, so verdicts cached and state touched by an abandoned attempt precede every real execution.
    End of block: the vote-by-balance pass visits the changed accounts in hash-map order; Fold explores every order. *)
 EXTENDS Naturals, Sequences, FiniteSets, TLC
 CONSTANTS MaxCands, MaxBlocks
 Kind == {"fund", "spend", "poor", "badsig", "overspend", "votebad", "vote", "votep", "create", "call", "revert",
-         "boxok", "boxfull", "boxbad", "cfwd", "modsig"}
+         "boxok", "boxfull", "boxbad", "cfwd", "modsig", "big", "boxmany"}
 VARIABLES state,     \* set of facts
           used,      \* kinds already offered (a signed transaction is offered to the chain once)
           blocks     \* number of blocks mined
 vars == <<state, used, blocks>>
-Pre(k, s) == CASE k \in {"spend", "votep", "modsig"} -> "funded" \in s /\ "resigned" \notin s
+\* incl = what was packaged before k in the same block
+Pre(k, s, incl) == CASE k \in {"spend", "votep", "modsig"} -> "funded" \in s /\ "resigned" \notin s
+               [] k = "big" -> incl = <<>>
                [] k \in {"poor", "badsig", "overspend", "votebad", "boxfull", "boxbad"} -> FALSE
                [] OTHER -> TRUE
 Eff(k, s) == CASE k = "fund" -> s \cup {"funded"}
@@ -49,17 +54,20 @@ Eff(k, s) == CASE k = "fund" -> s \cup {"funded"}
                [] k = "boxok" -> s \cup {"boxed"}
                [] k = "cfwd" -> s \cup {"ypaid"}
                [] k = "modsig" -> s \cup {"resigned"}
+               [] k = "big" -> s \cup {"bigpaid"}
+               [] k = "boxmany" -> s \cup {"manypaid"}
                [] OTHER -> s
 RECURSIVE Miner(_, _, _)
 \* <<included, state>> after walking the candidates
 Miner(cands, incl, s) == IF cands = <<>> THEN <<incl, s>>
-                         ELSE IF Pre(Head(cands), s) THEN Miner(Tail(cands), Append(incl, Head(cands)), Eff(Head(cands), s))
+                         ELSE IF Pre(Head(cands), s, incl) THEN Miner(Tail(cands), Append(incl, Head(cands)), Eff(Head(cands), s))
                          ELSE Miner(Tail(cands), incl, s)             \* discarded: state untouched
-RECURSIVE Validator(_, _)
-\* state after executing the list, or "reject"
-Validator(txs, s) == IF txs = <<>> THEN s
-                     ELSE IF ~Pre(Head(txs), s) THEN {"reject"}
-                     ELSE Validator(Tail(txs), Eff(Head(txs), s))
+RECURSIVE ValidatorFrom(_, _, _)
+\* state after executing the list, or "reject" (done = what was executed before in this block)
+ValidatorFrom(txs, done, s) == IF txs = <<>> THEN s
+                     ELSE IF ~Pre(Head(txs), s, done) THEN {"reject"}
+                     ELSE ValidatorFrom(Tail(txs), Append(done, Head(txs)), Eff(Head(txs), s))
+Validator(txs, s) == ValidatorFrom(txs, <<>>, s)
 Cands == UNION {[1..n -> Kind] : n \in 0..MaxCands}
 NoRepeat(c) == \A i, j \in 1..Len(c) : i # j => c[i] # c[j]
 Init == state = {} /\ used = {} /\ blocks = 0
